@@ -38,7 +38,7 @@ pub fn gen_main(a: &Args) {
             gen.unknown_props = false;
             gen.unknown_classes = false;
         }
-        let mut spec = gen.tree(&mut rng);
+        let mut spec = if i % 60 == 59 { gen.scale_tree(&mut rng) } else { gen.tree(&mut rng) };
         if fmt == Fmt::Xml {
             // Content::Object in XML is covered by the hand-written E5 cases of the monitor
             for nsp in spec.nodes.iter_mut() {
